@@ -8,5 +8,5 @@ mkdir -p bin evidence replays .work
 cp /repo/go.sum harness/go.sum
 python3 gen_registry.py
 (cd harness && go build -o ../bin/replay ./cmd/replay && go vet ./models ./spec ./nd >/dev/null 2>&1 || true)
-(cd harness && go test -count=1 ./models/ ./spec/ 2>&1 | tail -5)
+(cd harness && go test -count=1 ./models/ ./spec/ ./hx/ 2>&1 | tail -5)
 echo "setup ok"
